@@ -309,8 +309,9 @@ def inject(rng, ops, arch, defect):
                 return False
         return True
     if defect == "ew_neg_scale":
-        # an elementwise ADD / SUB / MUL whose global OFM scale is negative: through an explicit `rescale`, or (MUL) through a
-        # negative quantisation scale of the second operand, which is how the graph optimiser produced it
+        # an elementwise ADD / SUB / MUL whose global OFM scale is outside [0, 2^32): through an explicit `rescale` (negative, or
+        # 2^32 and above), or (MUL) through a negative quantisation scale of the second operand, which is how the graph optimiser
+        # produced it
         cands = [o for o in ews if o.sub_op_type in (a.NpuElementWiseOp.MUL, a.NpuElementWiseOp.ADD, a.NpuElementWiseOp.SUB)
                  and (o.activation is None or o.activation.op_type not in (a.NpuActivationOp.TANH, a.NpuActivationOp.SIGMOID))]
         if not cands:
@@ -323,7 +324,9 @@ def inject(rng, ops, arch, defect):
             if o.ifm2_scalar is not None:
                 o.ifm2_scalar = -o.ifm2_scalar       # keeps the quantised scalar (value / scale) what it was
         else:
-            o.rescale = (rng.choice([-1, -1177933312, -(1 << 31), -(1 << 40) + 5]), rng.randint(0, 40))
+            # below 0 and at / above 2^32: both ends of the unsigned 32-bit field
+            o.rescale = (rng.choice([-1, -1177933312, -(1 << 31), -(1 << 40) + 5, 1 << 32, (1 << 32) + 7, 45992645995, (1 << 63) + 1]),
+                         rng.randint(0, 40))
         return True
     if defect == "pool_no_padding":
         cands = [o for o in blocks if isinstance(o, a.NpuPoolingOperation)]
